@@ -7,6 +7,7 @@ import Holpy.C03.HeapProofs
 import Holpy.C03.SubstProofs
 import Holpy.C03.MemoProofs
 import Holpy.C03.CacheProofs
+import Holpy.C03.FProofs
 /-
 C03 — term equality is alpha-equivalence; substitution is capture-free.
 
@@ -155,19 +156,32 @@ example : (staleHeap 1).map (·.id) = some 0 := by decide
 /-! ### the `_id`-keyed cache of `subst_bound` -/
 
 /-- `subst_bound` as written — results cached under `(s._id, binder depth)`, a node re-used when its
-children came back with the same `_id` — run in any heap satisfying `IdInv`, with any allocator
-answers and starting from any cache whose entries are right (`CacheOK`, e.g. the empty one), for a
-closed argument: the object returned represents exactly `substBoundAt` (the pure recursion of the
-kernel model, about which `substBound_wt/sem` speak) of the term the body represents; the invariant
-and the cache stay right, nothing existing is touched. -/
-theorem substBound_cache_sound (ua : Addr) (tu : Term) (hcl : Term.isOpenAt 0 tu = false)
+children came back with the same `_id`, and, when the argument is open (`opn` = `t.is_open()`),
+`t.incr_boundvars(n)` (heap-level, with its own `_id` re-use) at every occurrence of the bound
+variable — run in any heap satisfying `IdInv`, with any allocator answers and starting from any
+cache whose entries are right (`CacheOK`, e.g. the empty one): the object returned represents
+exactly `substBoundAt` (the pure recursion of the kernel model, about which `substBound_wt/sem`
+speak) of the term the body represents; the invariant and the cache stay right, nothing existing is
+touched.  `opn = false` is only sound for a closed argument (that is what `is_open` returns). -/
+theorem substBound_cache_sound (opn : Bool) (ifuel : Nat) (ua : Addr) (tu : Term)
+    (hcl : opn = false → Term.isOpenAt 0 tu = false)
     (fuel : Nat) (h : Heap) (c : Cache) (as : List Addr) (s : Addr) (n : Nat) (ts : Term)
     (res : Heap × Cache × List Addr × Addr)
     (hi : IdInv h) (ru : Repr h ua tu) (hc : CacheOK tu h c) (rs : Repr h s ts)
-    (e : sbHeap true ua fuel h c as s n = some res) :
+    (e : sbHeap true opn ifuel ua fuel h c as s n = some res) :
     IdInv res.1 ∧ (∀ x o, h x = some o → res.1 x = some o) ∧ CacheOK tu res.1 res.2.1 ∧
     Repr res.1 res.2.2.2 (Term.substBoundAt tu n ts) :=
-  sbHeap_sound ua tu hcl fuel h c as s n ts res hi ru hc rs e
+  sbHeap_sound opn ifuel ua tu hcl fuel h c as s n ts res hi ru hc rs e
+
+/-- `incr_boundvars(inc)` as written (`rec(t, lev)`, unchanged nodes re-used by `_id`, a loose
+`Bound(i)` replaced by a new `Bound(i + inc)`) returns a representation of `incrAt inc lev` of the
+represented term, in any heap satisfying `IdInv`, for any allocator answers. -/
+theorem incr_heap_sound (inc fuel : Nat) (h : Heap) (as : List Addr) (s : Addr) (lev : Nat) (ts : Term)
+    (res : Heap × List Addr × Addr) (hi : IdInv h) (rs : Repr h s ts)
+    (e : incrHeap inc fuel h as s lev = some res) :
+    IdInv res.1 ∧ (∀ x o, h x = some o → res.1 x = some o) ∧
+    Repr res.1 res.2.2 (Term.incrAt inc lev ts) :=
+  incrHeap_sound inc fuel h as s lev ts res hi rs e
 
 /-- `S = F (Bound 0)` at 2 (ONE object), the body `S (%y. S)` at 4, the closed argument `u` at 5 -/
 def cacheHeap : Heap :=
@@ -178,7 +192,7 @@ def cacheBody : Term :=
   .comb (.comb (.var "F" (Ty.fn Ty.bool Ty.bool)) (.bound 0))
     (.abs "y" Ty.bool (.comb (.var "F" (Ty.fn Ty.bool Ty.bool)) (.bound 0)))
 
-example : (sbHeap true 5 10 cacheHeap [] [10, 11, 12] 4 0).bind (fun r => readTerm r.1 10 r.2.2.2)
+example : (sbHeap true false 0 5 10 cacheHeap [] [10, 11, 12] 4 0).bind (fun r => readTerm r.1 10 r.2.2.2)
     = some (Term.substBoundAt (.var "u" Ty.bool) 0 cacheBody) ∧
     readTerm cacheHeap 10 4 = some cacheBody := by decide
 
@@ -186,12 +200,26 @@ example : (sbHeap true 5 10 cacheHeap [] [10, 11, 12] 4 0).bind (fun r => readTe
 its `Bound 0` is `y`, gets the result computed at depth 0: `(F u) (%y. F u)` instead of
 `(F u) (%y. F y)` — the bound variable of the inner binder is replaced by the argument. -/
 theorem substBound_cache_counterexample :
-    (sbHeap false 5 10 cacheHeap [] [10, 11, 12] 4 0).bind (fun r => readTerm r.1 10 r.2.2.2)
+    (sbHeap false false 0 5 10 cacheHeap [] [10, 11, 12] 4 0).bind (fun r => readTerm r.1 10 r.2.2.2)
       = some (.comb (.comb (.var "F" (Ty.fn Ty.bool Ty.bool)) (.var "u" Ty.bool))
           (.abs "y" Ty.bool (.comb (.var "F" (Ty.fn Ty.bool Ty.bool)) (.var "u" Ty.bool)))) ∧
     Term.substBoundAt (.var "u" Ty.bool) 0 cacheBody
       = .comb (.comb (.var "F" (Ty.fn Ty.bool Ty.bool)) (.var "u" Ty.bool))
           (.abs "y" Ty.bool (.comb (.var "F" (Ty.fn Ty.bool Ty.bool)) (.bound 0))) := by decide
+
+/-- an OPEN argument `g (Bound 0)` at 7 (6 = `g`, 1 = `Bound 0`): under `%y` it must become
+`g (Bound 1)` -/
+def openHeap : Heap := (cacheHeap.set 6 ⟨.var "g" (Ty.fn Ty.bool Ty.bool), 6⟩).set 7 ⟨.comb 6 1, 7⟩
+
+example : (sbHeap true true 10 7 10 openHeap [] [10, 11, 12, 13, 14, 15, 16, 17] 4 0).bind
+      (fun r => readTerm r.1 10 r.2.2.2)
+    = some (Term.substBoundAt (.comb (.var "g" (Ty.fn Ty.bool Ty.bool)) (.bound 0)) 0 cacheBody) ∧
+    Term.substBoundAt (.comb (.var "g" (Ty.fn Ty.bool Ty.bool)) (.bound 0)) 0 cacheBody
+      = .comb (.comb (.var "F" (Ty.fn Ty.bool Ty.bool)) (.comb (.var "g" (Ty.fn Ty.bool Ty.bool)) (.bound 0)))
+          (.abs "y" Ty.bool (.comb (.var "F" (Ty.fn Ty.bool Ty.bool)) (.bound 0))) := by decide
+
+example : (incrHeap 2 10 openHeap [10, 11] 7 0).bind (fun r => readTerm r.1 10 r.2.2)
+    = some (.comb (.var "g" (Ty.fn Ty.bool Ty.bool)) (.bound 2)) := by decide
 
 /-! ### the memoised hash `_hash_val` -/
 
